@@ -328,6 +328,11 @@ def run_composite(ctx, pid):
         gates_composite = None
     if gates_composite:
         gates_composite.run(ctx, pid)
+    if pid in ("C01", "C16"):
+        # Pauli strings / weighted strings / Pauli operators: "whenever an operator claims to be
+        # unitary (Hermitian), its matrix is" (theorems in coq/props/C01p.v, C16p.v)
+        from checks import pauli_flags
+        pauli_flags.run(ctx, pid)
 
 
 def replay_composite(ctx, pid, data):
